@@ -92,7 +92,7 @@ PLAN = {
         "note": "Partial: the induction step for ConcatSource and ReplaceSource, not the base cases. Trusted: Verus/Z3/vstd, rules D1 D2 D5 D6 F1 MC1 MC2 MS1, the Cow deref axioms; Arc<dyn Source> method calls dispatch to implementations that satisfy the trait contract (assumed for the leaves).",
         "trusted_base": TB_VERUS + [
             "unit concat_views: rule D5 (trait Source reduced to source / rope / buffer / size with spec views text() and raw(); its contracts are the induction hypothesis), rule D6 (Rope as an opaque type with the contracts of new / append that unit rope_core proves), "
-            "rule D6f (`Rope::from(&self.field)` on a &String / &Cow<str> -> the named constructor of the opaque Rope type, contract = the single-piece rope over that string); assume_specification <Arc<T> as AsRef<T>>::as_ref (a reference to the value behind the Arc), String::as_bytes / String::len (bytes = UTF-8 encoding of the chars), OnceLock::get_or_init (returns the held value, or the initialiser's result when empty; uninterpreted cell view), rule W2 (the initialiser closure typed, with `String::from_utf8_lossy(v).to_string()` named lossy_string and `lossy` uninterpreted); rules MC1 (`X.iter().map(|c| c.source()).collect()` into a String -> push_str loop), MC2 (`X.iter().map(|c| c.buffer()).collect::<Vec<_>>().concat()` -> extend_from_slice loop), MS1 (`X.iter().map(|c| c.size()).sum()` -> `+=` loop), F1",
+            "rule D6f (`Rope::from(&self.field)` on a &String / &Cow<str> -> the named constructor of the opaque Rope type, contract = the single-piece rope over that string, proved on the real From impls by unit rope_build); assume_specification <Arc<T> as AsRef<T>>::as_ref (a reference to the value behind the Arc), String::as_bytes / String::len (bytes = UTF-8 encoding of the chars), OnceLock::get_or_init (returns the held value, or the initialiser's result when empty; uninterpreted cell view), rule W2 (the initialiser closure typed, with `String::from_utf8_lossy(v).to_string()` named lossy_string and `lossy` uninterpreted); rules MC1 (`X.iter().map(|c| c.source()).collect()` into a String -> push_str loop), MC2 (`X.iter().map(|c| c.buffer()).collect::<Vec<_>>().concat()` -> extend_from_slice loop), MS1 (`X.iter().map(|c| c.size()).sum()` -> `+=` loop), F1",
             "assume_specification <Cow<B> as Deref>::deref (uninterpreted target) with two axioms: the target of a Cow<str> / Cow<[u8]> is the borrowed value or the owned value's content (definition of Cow::deref)",
         ] + TB_ROPE,
         "assumptions": ["every child satisfies the trait contract (C07 for the child): proved here for ConcatSource, ReplaceSource, OriginalSource, SourceMapSource, RawStringSource, RawBufferSource and RawSource children, and the forwarding impl `Source for BoxSource` (what `children[i].source()` resolves to); assumed for CachedSource", "total text / buffer length fits usize (requires of rope() and size())",
@@ -173,7 +173,7 @@ PLAN = {
                  "starts_with(other) exactly when other's text is a byte prefix of this text, in all four representation combinations, for every division of either text into pieces including empty pieces and comparison windows that "
                  "cut multi-byte characters, with termination of the two-cursor loop (five genuine defects found and fixed in these three functions and in Rope == Rope, DESIGN 7). "
                  "Rope == Rope (the two-cursor loop over differently divided texts) and Rope == &str answer exactly whether the two denoted texts are equal, with every byte-slice window in range and termination. "
-                 "Unit rope_build: from_iter over any finite sequence of string slices establishes the invariant and denotes exactly their concatenation (empty slices dropped). "
+                 "Unit rope_build: from_iter over any finite sequence of string slices establishes the invariant and denotes exactly their concatenation (empty slices dropped); From<&String> and From<&Cow<str>> build the single-piece rope over that string. "
                  "Not decided: lines, char_indices (the twin's search observes char_indices), hash.",
         "note": "Partial. Trusted: Verus/Z3/vstd, extraction rules, the assume_specifications and two axioms listed in the evidence; get_byte additionally relies on the pinned std's binary_search_by returning the last match.",
         "trusted_base": TB_VERUS + TB_ROPE + TB_ROPE_OBS,
